@@ -115,7 +115,7 @@ impl Suite for ApiSuite {
                 let mut cache: Option<Db> = take_cached(key);
                 let outs = qs
                     .iter()
-                    .map(|q| {
+                    .flat_map(|q| {
                         let j = run_and_judge(&table, &layout, q, &mut cache);
                         outcome_attributed(&table, &layout, q, &j, &mut cache, "")
                     })
@@ -135,8 +135,12 @@ impl Suite for ApiSuite {
                     let j2 = run_and_judge(&table, &l2, q, &mut c2);
                     // the implementation-only oracle of C02: two realisations of one logical table
                     let eq = equivalent(q, &table, &j1.out, &j2.out);
-                    let mut o1 = outcome_attributed(&table, &l1, q, &j1, &mut c1, " [layout 1]");
-                    let mut o2 = outcome_attributed(&table, &l2, q, &j2, &mut c2, " [layout 2]");
+                    let mut all1 = outcome_attributed(&table, &l1, q, &j1, &mut c1, " [layout 1]");
+                    let mut all2 = outcome_attributed(&table, &l2, q, &j2, &mut c2, " [layout 2]");
+                    // the first attribution of each side carries the pair verdict; further symptoms of the
+                    // same answer are reported as outcomes of their own
+                    let mut o1 = all1.remove(0);
+                    let mut o2 = all2.remove(0);
                     if let Err(why) = eq {
                         let sig = format!(
                             "layout-dependent:{}||{}",
@@ -163,10 +167,106 @@ impl Suite for ApiSuite {
                     }
                     outs.push(o1);
                     outs.push(o2);
+                    outs.extend(all1);
+                    outs.extend(all2);
                 }
                 outs
+            }
+            "midflush" => {
+                let a = it[2].as_usize();
+                let b = it[3].as_usize();
+                midflush_case(&table, a, b)
             }
             other => panic!("unknown case kind {}", other),
         }
     }
+}
+
+/// C02 in the freeze -> batch window of a WAL flush: rows spread over a flushed partition, the frozen
+/// buffer and the open buffer must be answered like the one logical table, by `SELECT *` (unfiltered
+/// snapshot) and by queries naming their columns (column-filtered snapshot), during and after the flush.
+fn midflush_case(table: &Table, a: usize, b: usize) -> Vec<Outcome> {
+    use crate::query::{Expr, OKey, Sel};
+    use crate::refeval;
+    let all = Query::select((0..table.cols.len()).map(|i| Sel::Plain(Expr::Col(i))).collect());
+    let mut ordered = all.clone();
+    ordered.order.push((OKey::Expr(Expr::Col(0)), false));
+    let mut counted = Query::select(vec![Sel::Agg("count", Expr::int(1)), Sel::Agg("sum", Expr::Col(0))]);
+    counted.filter = None;
+    // (label, query, star?)
+    let plan: Vec<(&str, Query, bool)> = vec![
+        ("star", all.clone(), true),
+        ("star-ordered", ordered.clone(), true),
+        ("named", all.clone(), false),
+        ("named-ordered", ordered, false),
+        ("count", counted, false),
+    ];
+    let mut outs = vec![];
+    let mut mf = match crate::db::build_midflush(table, a, b) {
+        Ok(mf) => mf,
+        Err(e) => {
+            let msg = format!("{:?}", e);
+            return vec![Outcome {
+                model: None,
+                model_input: None,
+                impl_out: None,
+                oracle: Some(format!("mid-flush database (rows 0..{} flushed, {}..{} frozen, rest open) could not be built: {}", a, a, b, msg)),
+                signature: Some(format!("mid-flush:build-failure:{}", crate::db::skeleton(&msg))),
+                nontrivial: true,
+            }];
+        }
+    };
+    for phase in ["during", "after"] {
+        if phase == "after" {
+            mf.finish();
+        }
+        for (label, q, star) in &plan {
+            let named_sql = q.sql(table);
+            let sql = if *star {
+                let p = named_sql.find(" FROM ").expect("FROM");
+                format!("SELECT *{}", &named_sql[p..])
+            } else {
+                named_sql.clone()
+            };
+            let raw = mf.db.query(&sql);
+            // a `SELECT *` answer lists the columns in the engine's order: bring them into table order
+            let out = match (&raw, *star) {
+                (QOut::Rows(rows), true) => {
+                    let names = mf.db.last_colnames.clone();
+                    let perm: Option<Vec<usize>> = table.cols.iter().map(|c| names.iter().position(|n| *n == c.name)).collect();
+                    match perm {
+                        Some(perm) if names.len() == table.cols.len() => {
+                            QOut::Rows(rows.iter().map(|r| perm.iter().map(|i| r[*i].clone()).collect()).collect())
+                        }
+                        _ => QOut::Err("columns".into(), format!("SELECT * returned columns {:?}", names)),
+                    }
+                }
+                _ => raw.clone(),
+            };
+            let verdict = refeval::valid(q, &table.rows(), &out);
+            let ok = verdict.is_ok();
+            let wild = ok || refeval::valid_wildcard(q, &table.rows(), &out);
+            let kind = match &out {
+                QOut::Rows(rows) if !ok => format!("mismatch:{}", refeval::diff_kind(q, &table.rows(), rows)),
+                other => other.signature(),
+            };
+            outs.push(Outcome {
+                model: Some("q_valid".into()),
+                model_input: Some(Sx::l(vec![table.rows_sx(), q.sx(), out.sx()])),
+                impl_out: Some(Sx::boolean(wild)),
+                oracle: verdict.as_ref().err().map(|r| {
+                    format!(
+                        "`{}` {} a WAL flush (rows 0..{} in a partition, {}..{} in the frozen buffer, {}..{} in the open buffer) -> {}; engine returned {}",
+                        sql, phase, a, a, b, b, table.nrows(), r, short(&out)
+                    )
+                }),
+                signature: if ok { None } else { Some(format!("mid-flush:{}:{}:{}", phase, label, kind)) },
+                nontrivial: true,
+            });
+            if mf.db.tainted {
+                break;
+            }
+        }
+    }
+    outs
 }
